@@ -80,6 +80,81 @@ def nameBound : Nat := 256
 /-- `LayerRecord._legacy_name`: fallback strings returned and integer constants (empty when the method is absent) -/
 def legacyFallbacks : List (List Nat) := [[63]]
 def legacyBounds : List Nat := [255]
+/-- utils.py: (primitive, 'encode' | 'decode', the arguments of that codec call, parameters the body rebinds) -/
+def primitiveCodecs : List (String × String × List String × List String) := [
+  ("read_pascal_string", "decode", ["encoding"], []),
+  ("write_pascal_string", "encode", ["encoding"], []),
+  ("read_unicode_string", "decode", ["'utf-16-be'", "'surrogatepass'"], []),
+  ("write_unicode_string", "encode", ["'utf-16-be'", "'surrogatepass'"], [])
+]
+/-- what each reader call site does with the string read -/
+def readerUses : List (String × String × String × String) := [
+  ("psd/adjustments.py", "GradientMap.read", "read_unicode_string", "assign"),
+  ("psd/base.py", "StringElement.read", "read_unicode_string", "argument"),
+  ("psd/descriptor.py", "_DescriptorMixin._read_body", "read_unicode_string", "assign"),
+  ("psd/descriptor.py", "Property.read", "read_unicode_string", "assign"),
+  ("psd/descriptor.py", "Class.read", "read_unicode_string", "assign"),
+  ("psd/descriptor.py", "EnumeratedReference.read", "read_unicode_string", "assign"),
+  ("psd/descriptor.py", "Offset.read", "read_unicode_string", "assign"),
+  ("psd/descriptor.py", "Name.read", "read_unicode_string", "assign"),
+  ("psd/descriptor.py", "Name.read", "read_unicode_string", "assign"),
+  ("psd/filter_effects.py", "FilterEffect.read", "read_pascal_string", "assign"),
+  ("psd/image_resources.py", "ImageResource.read", "read_pascal_string", "assign"),
+  ("psd/image_resources.py", "SlicesV6.read", "read_unicode_string", "assign"),
+  ("psd/image_resources.py", "SliceV6.read", "read_unicode_string", "assign"),
+  ("psd/image_resources.py", "SliceV6.read", "read_unicode_string", "assign"),
+  ("psd/image_resources.py", "SliceV6.read", "read_unicode_string", "assign"),
+  ("psd/image_resources.py", "SliceV6.read", "read_unicode_string", "assign"),
+  ("psd/image_resources.py", "SliceV6.read", "read_unicode_string", "assign"),
+  ("psd/image_resources.py", "SliceV6.read", "read_unicode_string", "assign"),
+  ("psd/image_resources.py", "URLItem.read", "read_unicode_string", "assign"),
+  ("psd/image_resources.py", "VersionInfo.read", "read_unicode_string", "assign"),
+  ("psd/image_resources.py", "VersionInfo.read", "read_unicode_string", "assign"),
+  ("psd/image_resources.py", "PascalString.read", "read_pascal_string", "argument"),
+  ("psd/image_resources.py", "AlphaNamesPascal.read", "read_pascal_string", "argument"),
+  ("psd/image_resources.py", "AlphaNamesUnicode.read", "read_unicode_string", "argument"),
+  ("psd/layer_and_mask.py", "LayerRecord._read_extra", "read_pascal_string", "assign"),
+  ("psd/linked_layer.py", "LinkedLayer.read", "read_pascal_string", "assign"),
+  ("psd/linked_layer.py", "LinkedLayer.read", "read_unicode_string", "assign"),
+  ("psd/linked_layer.py", "LinkedLayer.read", "read_unicode_string", "assign"),
+  ("psd/patterns.py", "Pattern.read", "read_unicode_string", "assign"),
+  ("psd/patterns.py", "Pattern.read", "read_pascal_string", "assign"),
+  ("psd/tagged_blocks.py", "Annotation.read", "read_pascal_string", "assign"),
+  ("psd/tagged_blocks.py", "Annotation.read", "read_pascal_string", "assign"),
+  ("psd/tagged_blocks.py", "Annotation.read", "read_pascal_string", "assign"),
+  ("psd/tagged_blocks.py", "PlacedLayerData.read", "read_pascal_string", "assign")
+]
+/-- per element class: codecs named by its reader call sites, in order, and by its writer call sites -/
+def codecPairs : List (String × List String × List String) := [
+  ("psd/adjustments.py:GradientMap.*", ["utf-16"], ["utf-16"]),
+  ("psd/base.py:StringElement.*", ["utf-16"], ["utf-16"]),
+  ("psd/descriptor.py:_DescriptorMixin._*_body", ["utf-16"], ["utf-16"]),
+  ("psd/descriptor.py:Property.*", ["utf-16"], ["utf-16"]),
+  ("psd/descriptor.py:Class.*", ["utf-16"], ["utf-16"]),
+  ("psd/descriptor.py:EnumeratedReference.*", ["utf-16"], ["utf-16"]),
+  ("psd/descriptor.py:Offset.*", ["utf-16"], ["utf-16"]),
+  ("psd/descriptor.py:Name.*", ["utf-16", "utf-16"], ["utf-16", "utf-16"]),
+  ("psd/filter_effects.py:FilterEffect.*", ["ascii"], ["ascii"]),
+  ("psd/image_resources.py:ImageResource.*", ["param"], ["param"]),
+  ("psd/image_resources.py:AlphaNamesPascal.*", ["mac-roman"], ["mac-roman"]),
+  ("psd/image_resources.py:AlphaNamesUnicode.*", ["utf-16"], ["utf-16"]),
+  ("psd/image_resources.py:PascalString.*", ["mac-roman"], ["mac-roman"]),
+  ("psd/image_resources.py:SlicesV6.*", ["utf-16"], ["utf-16"]),
+  ("psd/image_resources.py:SliceV6.*", ["utf-16", "utf-16", "utf-16", "utf-16", "utf-16", "utf-16"], ["utf-16", "utf-16", "utf-16", "utf-16", "utf-16", "utf-16"]),
+  ("psd/image_resources.py:URLItem.*", ["utf-16"], ["utf-16"]),
+  ("psd/image_resources.py:VersionInfo.*", ["utf-16", "utf-16"], ["utf-16", "utf-16"]),
+  ("psd/layer_and_mask.py:LayerRecord._*_extra", ["param"], ["param"]),
+  ("psd/linked_layer.py:LinkedLayer.*", ["mac-roman", "utf-16", "utf-16"], ["mac-roman", "utf-16", "utf-16"]),
+  ("psd/patterns.py:Pattern.*", ["utf-16", "ascii"], ["utf-16", "ascii"]),
+  ("psd/tagged_blocks.py:Annotation.*", ["mac-roman", "mac-roman", "mac-roman"], ["mac-roman", "mac-roman", "mac-roman"]),
+  ("psd/tagged_blocks.py:PlacedLayerData.*", ["mac-roman"], ["mac-roman"])
+]
+/-- API functions that store a caller-supplied layer name: (scope, parameter, how the unicode block is stored, guard) -/
+def nameEntryPoints : List (String × String × String × String) := [
+  ("Layer.name", "value", "set_data", "always"),
+  ("Group.new", "name", "set_data", "always"),
+  ("PixelLayer.frompil", "layer_name", "setter", "always")
+]
 
 /-- `bytes([i]).decode('mac_roman')` for i in 0..255 (0x110000 = undefined) -/
 def macRomanTable : List Nat := [0, 1, 2, 3, 4, 5, 6, 7, 8, 9, 10, 11, 12, 13, 14, 15, 16, 17, 18, 19, 20, 21, 22, 23, 24, 25, 26, 27, 28, 29, 30, 31, 32, 33, 34, 35, 36, 37, 38, 39, 40, 41, 42, 43, 44, 45, 46, 47, 48, 49, 50, 51, 52, 53, 54, 55, 56, 57, 58, 59, 60, 61, 62, 63, 64, 65, 66, 67, 68, 69, 70, 71, 72, 73, 74, 75, 76, 77, 78, 79, 80, 81, 82, 83, 84, 85, 86, 87, 88, 89, 90, 91, 92, 93, 94, 95, 96, 97, 98, 99, 100, 101, 102, 103, 104, 105, 106, 107, 108, 109, 110, 111, 112, 113, 114, 115, 116, 117, 118, 119, 120, 121, 122, 123, 124, 125, 126, 127, 196, 197, 199, 201, 209, 214, 220, 225, 224, 226, 228, 227, 229, 231, 233, 232, 234, 235, 237, 236, 238, 239, 241, 243, 242, 244, 246, 245, 250, 249, 251, 252, 8224, 176, 162, 163, 167, 8226, 182, 223, 174, 169, 8482, 180, 168, 8800, 198, 216, 8734, 177, 8804, 8805, 165, 181, 8706, 8721, 8719, 960, 8747, 170, 186, 937, 230, 248, 191, 161, 172, 8730, 402, 8776, 8710, 171, 187, 8230, 160, 192, 195, 213, 338, 339, 8211, 8212, 8220, 8221, 8216, 8217, 247, 9674, 255, 376, 8260, 8364, 8249, 8250, 64257, 64258, 8225, 183, 8218, 8222, 8240, 194, 202, 193, 203, 200, 205, 206, 207, 204, 211, 212, 63743, 210, 218, 219, 217, 305, 710, 732, 175, 728, 729, 730, 184, 733, 731, 711]
